@@ -89,9 +89,11 @@ def write_case(spec, d):
 def gen_workflow(rng, max_nodes=6, speeds=(10,), allow_zero=True, shape=None):
     n = rng.randint(1, max_nodes)
     shape = shape or rng.choice(["chain", "diamond", "fan", "random", "random",
-                                 "disconnected", "single", "chains2"])
+                                 "disconnected", "single", "chains2", "shortcut"])
     if shape == "chains2":
         n = max(n, 5)
+    if shape == "shortcut":
+        n = max(n, 3)
     if shape == "single":
         n = 1
     nodes = []
@@ -130,8 +132,16 @@ def gen_workflow(rng, max_nodes=6, speeds=(10,), allow_zero=True, shape=None):
             for j in range(i + 1, n):
                 if rng.random() < 0.35:
                     edges.append((i, j))
+    heavy = None
+    if shape == "shortcut":
+        # a chain 0 -> 1 -> ... -> n-1 plus the edge 0 -> n-1 that a longer path already implies, carrying
+        # far more data than the others: the last task waits for THAT transfer
+        edges = [(i, i + 1) for i in range(n - 1)] + [(0, n - 1)]
+        heavy = (0, n - 1)
+        for nd in nodes[1:]:
+            nd["comp"] = rng.choice([0, 1, sp])
     # edge volumes: dyadic relative to bandwidths (exact floats)
-    edges = [[u, v, rng.choice([0, 1, 2, 4, 8, 3, 6])] for (u, v) in edges]
+    edges = [[u, v, (rng.choice([32, 48, 64]) if (u, v) == heavy else rng.choice([0, 1, 2, 4, 8, 3, 6]))] for (u, v) in edges]
     if rng.random() < 0.5 and n > 1:
         # the workflow file need not list its nodes in a topological order, nor
         # number them that way: relabel and shuffle
